@@ -327,7 +327,7 @@ fn gen_request(rng: &mut Rng, limit: usize) -> Vec<u8> {
         r.extend_from_slice(b"\r\n");
     }
     if rng.chance(4) { r.extend_from_slice(b"Content-Length: abc\r\n"); }
-    if rng.chance(3) { r.extend_from_slice([&b"Content-Length: 4294967296\r\n"[..], b"Content-Length: 18446744073709551616\r\n", b"Content-Length: -1\r\n", b"Content-Length: +0\r\n"][rng.below(4)]); }
+    if rng.chance(3) { r.extend_from_slice([&b"Content-Length: 4294967296\r\n"[..], b"Content-Length: 18446744073709551616\r\n", b"Content-Length: -1\r\n", b"Content-Length: +0\r\n", b"Content-Length:\r\n", b"Content-Length: \t \r\n"][rng.below(6)]); }
     r.extend_from_slice(b"\r\n");
     for k in 0..body_len { r.push(if rng.chance(5) { b'\r' } else if rng.chance(5) { b'\n' } else { b'0' + (k % 10) as u8 }); }
     r
@@ -524,6 +524,40 @@ fn search_c12_bulk(dir: &str) {
     }
 }
 
+fn search_c12_accumulate(dir: &str) {
+    // one request whose descriptors arrive over three reads (110 each): all 330 are handed over, in order
+    use vmm_sys_util::sock_ctrl_msg::ScmSocket;
+    use std::io::{Seek, SeekFrom};
+    let (mut c, tx) = new_conn(None);
+    let pieces: [&[u8]; 3] = [b"GET /acc HT", b"TP/1.1\r\nX-A: b", b"\r\n\r\n"];
+    let mut next = 0usize;
+    let mut ok_send = true;
+    for p in pieces {
+        let mut files = vec![];
+        for _ in 0..110 {
+            let path = format!("{}/a{}", dir, next);
+            let mut f = match std::fs::OpenOptions::new().create(true).read(true).write(true).truncate(true).open(&path) { Ok(f) => f, Err(_) => { ok_send = false; break; } };
+            write!(f, "{}", next).unwrap();
+            f.seek(SeekFrom::Start(0)).unwrap();
+            next += 1;
+            files.push(f);
+        }
+        let fds: Vec<i32> = files.iter().map(|f| f.as_raw_fd()).collect();
+        if !ok_send || tx.send_with_fds(&[p], &fds).is_err() { ok_send = false; break; }
+        drop(files);
+        let _ = c.try_read();
+    }
+    if !ok_send { return; }   // descriptor limit of this process: inconclusive
+    let mut ids = vec![];
+    let mut n = 0;
+    while let Some(rq) = c.pop_parsed_request() { n += 1; for mut f in rq.files { let mut t = String::new(); let _ = f.seek(SeekFrom::Start(0)); let _ = f.read_to_string(&mut t); ids.push(t.parse::<usize>().unwrap_or(usize::MAX)); } }
+    let want: Vec<usize> = (0..330).collect();
+    if n != 1 || ids != want {
+        let _ = std::fs::remove_dir_all(dir);
+        found("C12", "one request whose bytes arrive in three reads, each carrying 110 descriptors".into(), format!("{} requests delivered with {} descriptors (first missing or wrong at position {:?})", n, ids.len(), ids.iter().zip(want.iter()).position(|(a, b)| a != b).or(if ids.len() < 330 { Some(ids.len()) } else { None })), "one request owning all 330 descriptors in arrival order".into());
+    }
+}
+
 fn search_c12(budget: usize) {
     use vmm_sys_util::sock_ctrl_msg::ScmSocket;
     use std::io::{Seek, SeekFrom};
@@ -532,6 +566,7 @@ fn search_c12(budget: usize) {
     let dir = format!("/tmp/wit_c12_{}", std::process::id());
     let _ = std::fs::create_dir_all(&dir);
     search_c12_bulk(&dir);
+    search_c12_accumulate(&dir);
     while tried < budget {
         // k requests, pieces with descriptors attached; expected: every descriptor goes, in arrival order, to the
         // first request completing at or after its read.  Descriptors are told apart by the number written in the file.
@@ -1427,6 +1462,28 @@ fn search_server_blocking() {
 fn search_server_histories(prop: &str) {
     if prop == "C09" { search_server_blocking(); }
     if prop == "C07" {
+        // H10: requests discarded in front of a malformed one were never counted as in flight: the connection must still wait
+        //      for the answer to the request that IS in flight before its descriptor number can be reused
+        {
+            let what = "client 1: /c1/r0 yielded; then one write with a valid /c1/r1 followed by garbage (400); client 1 closes; client 2 connects; /c1/r0 answered late";
+            let mut s = Srv::new("C07h10");
+            let mut c1 = s.connect(prop, what);
+            let _ = c1.write_all(b"GET /c1/r0 HTTP/1.1\r\n\r\n");
+            s.pump(prop, what);
+            if s.outstanding.len() == 1 {
+                let _ = c1.write_all(b"GET /c1/r1 HTTP/1.1\r\n\r\nBAD\r\n\r\n");
+                s.pump(prop, what);
+                let mut w = vec![]; peek_some(&mut c1, &mut w);
+                drop(c1);
+                s.pump(prop, what);
+                let mut c2 = s.connect(prop, what);
+                s.answer("/c1/r0");
+                s.pump(prop, what);
+                let mut w2 = vec![]; peek_some(&mut c2, &mut w2);
+                if String::from_utf8_lossy(&w2).contains("echo:/c1/") { s.done(); found(prop, what.into(), format!("client 2, which sent nothing, received {}", esc(&w2)), "nothing: the late answer is dropped".into()); }
+            }
+            s.done();
+        }
         // H8: a response larger than the socket buffer reaches a slow reader byte for byte, once
         {
             let what = "a client asks for /large; the application answers with a 1 MiB body; the client reads slowly while the server is polled";
@@ -1618,6 +1675,18 @@ fn search_server(prop: &str, _budget: usize) {
 fn main() {
     let args: Vec<String> = std::env::args().collect();
     let prop = args.get(1).map(|s| s.as_str()).unwrap_or("C01");
+    {
+        // a panic raised INSIDE the crate under test (not in this program) is a finding of the running search: no entry
+        // point may panic on any input.  Searches that expect panics (C03) install their own hook and use catch_unwind.
+        let p = match prop { "C04s" => "C04".to_string(), x => x.to_string() };
+        std::panic::set_hook(Box::new(move |info| {
+            let loc = info.location().map(|l| format!("{}:{}", l.file(), l.line())).unwrap_or_default();
+            if loc.contains("wit.rs") { eprintln!("witness program panicked at {}: {}", loc, info); return; }
+            let msg = if let Some(m) = info.payload().downcast_ref::<&str>() { m.to_string() } else if let Some(m) = info.payload().downcast_ref::<String>() { m.clone() } else { "panic".to_string() };
+            println!("{{\"status\":\"found\",\"property\":\"{}\",\"input\":\"the input being tried by the bounded search for {} when the crate panicked (deterministic: seeded search)\",\"observed\":\"panic at {}: {}\",\"expected\":\"a value or an error, never a panic\"}}", p, p, json_safe(&loc), json_safe(&msg));
+            std::process::exit(0);
+        }));
+    }
     let budget: usize = args.get(2).and_then(|s| s.parse().ok()).unwrap_or(2000);
     match prop {
         "C01" | "C02" | "C04" | "C13" => search_stream(prop, budget),
